@@ -9,14 +9,17 @@ import (
 type subInfo struct {
 	key      string
 	notifier INotifier
+	unsub    bool // false: subscribe, true: unsubscribe
 }
 
 // subPub is a wrapper for the publish-subscribe function
 type subPub struct {
 	keyToNotifier sync.Map
 
-	subInfoChan   chan subInfo
-	unsubInfoChan chan subInfo
+	// subscriptions and unsubscriptions share one channel so that they are
+	// applied in the order they were made: an unsubscription must never be
+	// processed before the subscription it belongs to
+	infoChan chan subInfo
 }
 
 type SubPub interface {
@@ -33,8 +36,7 @@ type SubPub interface {
 // NewSubPub return a subPub
 func NewSubPub() *subPub {
 	s := &subPub{
-		subInfoChan:   make(chan subInfo, 50),
-		unsubInfoChan: make(chan subInfo, 50),
+		infoChan: make(chan subInfo, 100),
 	}
 	go s.process()
 	return s
@@ -54,11 +56,11 @@ func (s *subPub) Subscribe(iNotifier INotifier, nameSpace string, kind string, p
 		notifier: iNotifier,
 	}
 
-	s.subInfoChan <- info
+	s.infoChan <- info
 
 	go func() {
 		<-iNotifier.Err()
-		s.unsubInfoChan <- info
+		s.infoChan <- subInfo{key: key, notifier: iNotifier, unsub: true}
 	}()
 
 	return nil
@@ -66,9 +68,9 @@ func (s *subPub) Subscribe(iNotifier INotifier, nameSpace string, kind string, p
 
 // a goroutine to process subscription and unsubscription, start after you call NewSubPub
 func (s *subPub) process() {
-	for {
-		select {
-		case info := <-s.subInfoChan:
+	for info := range s.infoChan {
+		if !info.unsub {
+			info := info
 			var slice []*subInfo
 			v, ok := s.keyToNotifier.Load(info.key)
 			if !ok {
@@ -79,7 +81,7 @@ func (s *subPub) process() {
 			slice = append(slice, &info)
 			s.keyToNotifier.Store(info.key, slice)
 			verifApplied("sub", info.key, info.notifier)
-		case info := <-s.unsubInfoChan:
+		} else {
 			v, ok := s.keyToNotifier.Load(info.key)
 			if !ok {
 				verifApplied("unsub-miss", info.key, info.notifier)
